@@ -3,7 +3,7 @@ import hashlib
 
 from hypothesis import strategies as st
 
-from vlib.runner import Sub, ok, bad, skip
+from vlib.runner import Sub, ok, bad
 from vlib import bench, axil, axi4
 
 RULE = ("AXIBurst2Beat: ALL (burst type, len, size) classes (FIXED len 0..15, INCR len 0..255 as far as the 4 KB rule allows, "
@@ -112,7 +112,6 @@ def run_b2b(case):
         c_, txt = cons.hold_violations[0]
         return bad("beat-hold", "%s: beat stream, cycle %d: %s" % (ctx, c_, txt), key="c10:burst2beat-hold", cls=cls, cycles=cyc)
     pos = 0
-    nt = False
     b2b = 0
     for k, b in enumerate(bursts):
         n = b["len"] + 1
@@ -319,7 +318,7 @@ def _log2(n):
 def _op_geometry(draw, direction, nbm, nbs, lo):
     """burst type, len, start offset (relative to the window) of one legal burst inside [lo, lo+HALF)"""
     size = _log2(nbm)
-    long_ = draw(st.integers(0, 15)) == 0          # the simulator manages ~300 cycles/s on these DUTs: long bursts are rare
+    long_ = draw(st.integers(0, 15)) == 11         # the simulator manages ~300 cycles/s on these DUTs: long bursts are rare
     if direction == "up":
         ratio = nbs // nbm
         kmax = min(256 // ratio, HALF // nbs)                      # wide beats
@@ -476,7 +475,7 @@ def run_conv(case):
     cls = ["dut:" + dname, "dir:" + direction, "ratio:%d" % (max(nbm, nbs) // narrow), "K=%d" % case["K"]]
     if direction == "down":
         cls.append("rmode:" + case["rmode"])
-    kd = direction if direction != "same" else "same"
+    kd = direction
 
     def opdesc(p):
         o = ops[p]
@@ -636,7 +635,7 @@ def subchecks():
                  "thorough: 8 per class; WRAP: every start position of the window"),
         Sub("burst2beat-generated", run_b2b, strategy=st_b2b, examples=(3000, 60000),
             rule="1..6 generated legal bursts, generated offer/ready schedules, idle garbage"),
-        Sub("converters", run_conv, strategy=st_conv, examples=(1200, 24000), timeout=(900, 20000),
+        Sub("converters", run_conv, strategy=st_conv, examples=(1600, 32000), timeout=(900, 20000),
             rule="Up/Down/AXIConverter ratio 2/4/8, 2..5 (thorough ..10) bursts, 1-2 outstanding, error range, byte scoreboard"),
         Sub("down-r-sideband", run_conv, enum=enum_sideband, exhaustive=True,
             rule="AXIDownConverter: one read burst (len 0/1, thorough 0/1/3) with non-zero id or SLVERR x R ready patterns that stall a valid beat x idle slave zeros/garbage"),
